@@ -202,6 +202,12 @@ def parse_world():
 def parser_setup(I, scope):
     I.trace = []
     I.scanner = None
+    I.lock_depth = 0
+
+    def with_hook(I2, v, what):
+        if isinstance(v, SNamespace) and v.name == 'PYPARSING_LOCK':
+            I2.lock_depth += 1 if what == 'enter' else -1
+    I.hooks['with'] = with_hook
     scope.set('self', I.alloc('Parser', {'jdd': I.fresh(STR, 'jdd')}))
 
 
@@ -252,6 +258,9 @@ def worker_world():
         fields = {}
 
         def m_parseString(self, I, me, s):
+            # the grammar re-binds shared sub-grammars while it parses: two parses must not overlap (worker threads of the scheduler)
+            I.path.oblige(f'{PARSE}::Parser._parse_listing_worker::structure::C11-the-grammar-is-used-under-the-pyparsing-lock', I.lock_depth >= 1, kind='structure',
+                          meta={'expr': 'gram.parseString(...) is called inside `with PYPARSING_LOCK:`'})
             # assumed contract of pyparsing + the parse actions (see ASSUMPTIONS)
             for exc in ('ParseException', 'SpectrumDictBuilderException', 'MeshDictBuilderException'):
                 if I.path.cond(z3.Bool(I.path.name('parseString_raises_' + exc))):
